@@ -341,20 +341,20 @@ void h_lbuf_mark_jump(void)
 	}
 	__CPROVER_assume(mark >= -128 && mark < 256 && other >= -128 && other < 256);
 	int mi = markidx(mark), oi = markidx(other);
-	__CPROVER_assert(mi >= -1 && mi < NMARKS, "markidx: index inside mark[] or -1");
-	__CPROVER_assert((mark >= 'a' && mark <= 'z') ? mi == mark - 'a' : 1, "markidx: letters map to 0..25");
+	H_ASSERT(mi >= -1 && mi < NMARKS, "markidx: index inside mark[] or -1");
+	H_ASSERT((mark >= 'a' && mark <= 'z') ? mi == mark - 'a' : 1, "markidx: letters map to 0..25");
 	int before = oi >= 0 ? lb->mark[oi] : -2;
 	lbuf_mark(lb, mark, pos, off);
 	if (oi >= 0 && oi != mi)
-		__CPROVER_assert(lb->mark[oi] == before, "lbuf_mark: setting one mark leaves every other mark alone");
+		H_ASSERT(lb->mark[oi] == before, "lbuf_mark: setting one mark leaves every other mark alone");
 	int r = lbuf_jump(lb, mark, &p2, &o2);
 	if (mi >= 0 && pos >= 0)
-		__CPROVER_assert(r == 0 && p2 == pos && o2 == off, "lbuf_jump: returns the line and offset the mark was set to");
+		H_ASSERT(r == 0 && p2 == pos && o2 == off, "lbuf_jump: returns the line and offset the mark was set to");
 	if (mi < 0 || pos < 0)
-		__CPROVER_assert(r == 1, "lbuf_jump: an unknown or unset mark fails");
+		H_ASSERT(r == 1, "lbuf_jump: an unknown or unset mark fails");
 	int p3_before = p3;
 	if (lbuf_jump(lb, other, &p3, 0))
-		__CPROVER_assert(p3 == p3_before, "lbuf_jump: a failing jump leaves the position alone");
+		H_ASSERT(p3 == p3_before, "lbuf_jump: a failing jump leaves the position alone");
 #ifdef CANARY
 	__CPROVER_assert(0, "canary");
 #endif
@@ -372,16 +372,16 @@ void h_lbuf_glob(void)
 	lb->ln_glob = malloc(n);
 	char before_o = lb->ln_glob[other], before_p = lb->ln_glob[pos];
 	lbuf_globset(lb, pos, dep);
-	__CPROVER_assert(lb->ln_glob[pos] & (1 << dep), "lbuf_globset: sets bit dep of the line");
-	__CPROVER_assert(d2 == dep || ((lb->ln_glob[pos] ^ before_p) & (1 << d2)) == 0, "lbuf_globset: leaves the marks of other nesting depths alone");
-	__CPROVER_assert(other == pos || lb->ln_glob[other] == before_o, "lbuf_globset: leaves other lines alone");
+	H_ASSERT(lb->ln_glob[pos] & (1 << dep), "lbuf_globset: sets bit dep of the line");
+	H_ASSERT(d2 == dep || ((lb->ln_glob[pos] ^ before_p) & (1 << d2)) == 0, "lbuf_globset: leaves the marks of other nesting depths alone");
+	H_ASSERT(other == pos || lb->ln_glob[other] == before_o, "lbuf_globset: leaves other lines alone");
 	char mid = lb->ln_glob[pos];
 	int r = lbuf_globget(lb, pos, dep);
-	__CPROVER_assert(r == 1, "lbuf_globget: reports the mark that was set");
-	__CPROVER_assert((lb->ln_glob[pos] & (1 << dep)) == 0, "lbuf_globget: clears bit dep");
-	__CPROVER_assert(d2 == dep || ((lb->ln_glob[pos] ^ mid) & (1 << d2)) == 0, "lbuf_globget: leaves other depths alone");
-	__CPROVER_assert(lbuf_globget(lb, pos, dep) == 0, "lbuf_globget: a cleared mark reads 0 (at most one visit)");
-	__CPROVER_assert(other == pos || lb->ln_glob[other] == before_o, "lbuf_globget: leaves other lines alone");
+	H_ASSERT(r == 1, "lbuf_globget: reports the mark that was set");
+	H_ASSERT((lb->ln_glob[pos] & (1 << dep)) == 0, "lbuf_globget: clears bit dep");
+	H_ASSERT(d2 == dep || ((lb->ln_glob[pos] ^ mid) & (1 << d2)) == 0, "lbuf_globget: leaves other depths alone");
+	H_ASSERT(lbuf_globget(lb, pos, dep) == 0, "lbuf_globget: a cleared mark reads 0 (at most one visit)");
+	H_ASSERT(other == pos || lb->ln_glob[other] == before_o, "lbuf_globget: leaves other lines alone");
 #ifdef CANARY
 	__CPROVER_assert(0, "canary");
 #endif
@@ -411,16 +411,16 @@ void h_lbuf_markhelpers(void)
 	__CPROVER_assume(0 <= m && m < NMARKS && 0 <= k && k < NMARKS);
 	int mk = lb->mark[m], mo = lb->mark_off[m], kk = lb->mark[k];
 	lbuf_savemark(lb, lo, m);
-	__CPROVER_assert(mk < 0 ? lo->mark == 0 : (lo->mark[m] == mk && lo->mark_off[m] == mo), "lbuf_savemark: a set mark is recorded in the entry");
-	__CPROVER_assert(mk < 0 || k == m || lo->mark[k] == -1, "lbuf_savemark: marks not saved read as unset (-1)");
+	H_ASSERT(mk < 0 ? lo->mark == 0 : (lo->mark[m] == mk && lo->mark_off[m] == mo), "lbuf_savemark: a set mark is recorded in the entry");
+	H_ASSERT(mk < 0 || k == m || lo->mark[k] == -1, "lbuf_savemark: marks not saved read as unset (-1)");
 	lb->mark[m] = nondet_int();
 	lb->mark_off[m] = nondet_int();
 	int before_k = lb->mark[k];
 	lbuf_loadmark(lb, lo, m);
-	__CPROVER_assert(mk < 0 || (lb->mark[m] == mk && lb->mark_off[m] == mo), "lbuf_loadmark: restores the saved line and offset");
-	__CPROVER_assert(k == m || lb->mark[k] == before_k, "lbuf_loadmark: touches only mark m");
+	H_ASSERT(mk < 0 || (lb->mark[m] == mk && lb->mark_off[m] == mo), "lbuf_loadmark: restores the saved line and offset");
+	H_ASSERT(k == m || lb->mark[k] == before_k, "lbuf_loadmark: touches only mark m");
 	lbuf_loadpos(lb, lo);
-	__CPROVER_assert(lb->mark[markidx('^')] == lo->pos && lb->mark_off[markidx('^')] == lo->pos_off &&
+	H_ASSERT(lb->mark[markidx('^')] == lo->pos && lb->mark_off[markidx('^')] == lo->pos_off &&
 		lb->mark[markidx('*')] == lo->pos, "lbuf_loadpos: cursor marks point at the edit position");
 #ifdef CANARY
 	__CPROVER_assert(0, "canary");
@@ -668,28 +668,28 @@ void h_lbuf_replace_bounded(void)
 		oldptr[i] = i < n ? lb->ln[i] : (char *) 0;
 	lbuf_replace(lb, has_txt ? txt : (char *) 0, pos, n_del);
 	/* the splice law */
-	__CPROVER_assert(lb->ln_n == n + n_ins - n_del, "lbuf_replace: new line count = old - deleted + inserted");
-	__CPROVER_assert(lb->ln_n < lb->ln_sz, "lbuf_replace: the table keeps a spare slot");
+	H_ASSERT(lb->ln_n == n + n_ins - n_del, "lbuf_replace: new line count = old - deleted + inserted");
+	H_ASSERT(lb->ln_n < lb->ln_sz, "lbuf_replace: the table keeps a spare slot");
 	for (i = 0; i < B_MAXLN; i++) {
 		if (i < pos)
-			__CPROVER_assert(lb->ln[i] == oldptr[i] && lb->ln_glob[i] == oglob[i], "lbuf_replace: lines before the range keep their place, bytes and global mark");
+			H_ASSERT(lb->ln[i] == oldptr[i] && lb->ln_glob[i] == oglob[i], "lbuf_replace: lines before the range keep their place, bytes and global mark");
 		if (i >= pos + n_del && i < n)
-			__CPROVER_assert(lb->ln[i + n_ins - n_del] == oldptr[i] && lb->ln_glob[i + n_ins - n_del] == oglob[i],
+			H_ASSERT(lb->ln[i + n_ins - n_del] == oldptr[i] && lb->ln_glob[i + n_ins - n_del] == oglob[i],
 				"lbuf_replace: lines after the range keep their bytes, order and global mark, shifted by inserted - deleted");
 		if (i < n_ins) {
-			__CPROVER_assert(b_streq(lb->ln[pos + i], want[i], 8 > 0 ? (int) strlen(want[i]) + 1 : 0), "lbuf_replace: the inserted lines are the lines of the text, each ended by exactly one newline");
+			H_ASSERT(b_streq(lb->ln[pos + i], want[i], 8 > 0 ? (int) strlen(want[i]) + 1 : 0), "lbuf_replace: the inserted lines are the lines of the text, each ended by exactly one newline");
 			if (i >= n_del)
-				__CPROVER_assert(lb->ln_glob[pos + i] == 0, "lbuf_replace: lines created beyond the replaced count start without global marks");
+				H_ASSERT(lb->ln_glob[pos + i] == 0, "lbuf_replace: lines created beyond the replaced count start without global marks");
 		}
 	}
 	/* marks travel with their lines */
 	for (i = 0; i < NMARKS_BASE; i++) {
 		if (omark[i] >= 0 && omark[i] < pos)
-			__CPROVER_assert(lb->mark[i] == omark[i], "lbuf_replace: a mark before the range is unchanged");
+			H_ASSERT(lb->mark[i] == omark[i], "lbuf_replace: a mark before the range is unchanged");
 		if (omark[i] >= pos + n_del)
-			__CPROVER_assert(lb->mark[i] == omark[i] + n_ins - n_del, "lbuf_replace: a mark after the range follows its line");
+			H_ASSERT(lb->mark[i] == omark[i] + n_ins - n_del, "lbuf_replace: a mark after the range follows its line");
 		if (omark[i] >= pos && omark[i] < pos + n_del)
-			__CPROVER_assert(lb->mark[i] == (!has_txt ? -1 : omark[i] >= pos + n_ins ? pos + n_ins - 1 : omark[i]) || (has_txt && n_ins == 0 && lb->mark[i] == pos - 1),
+			H_ASSERT(lb->mark[i] == (!has_txt ? -1 : omark[i] >= pos + n_ins ? pos + n_ins - 1 : omark[i]) || (has_txt && n_ins == 0 && lb->mark[i] == pos - 1),
 				"lbuf_replace: a mark on a deleted line is dropped on pure deletion, clamped into the replacement otherwise");
 	}
 #ifdef CANARY
@@ -810,15 +810,15 @@ void h_lbuf_opt_bounded(void)
 	int u0 = lb->hist_u, n0 = lb->hist_n, done0 = g_lopt_done_calls;
 	g_LC = nondet_int();
 	lbuf_opt(lb, has_buf ? g_sb_text : (char *) 0, pos, n_del);
-	__CPROVER_assert(lb->hist_n == u0 + 1 && lb->hist_u == lb->hist_n && lb->hist_n <= lb->hist_sz, "lbuf_opt: the redo branch is discarded and one entry appended at the undo cursor");
-	__CPROVER_assert(g_lopt_done_calls == done0 + (n0 - u0), "lbuf_opt: every entry of the discarded redo branch is released");
+	H_ASSERT(lb->hist_n == u0 + 1 && lb->hist_u == lb->hist_n && lb->hist_n <= lb->hist_sz, "lbuf_opt: the redo branch is discarded and one entry appended at the undo cursor");
+	H_ASSERT(g_lopt_done_calls == done0 + (n0 - u0), "lbuf_opt: every entry of the discarded redo branch is released");
 	struct lopt *lo = &lb->hist[u0];
-	__CPROVER_assert(lo->pos == pos && lo->n_del == n_del && lo->seq == lb->useq, "lbuf_opt: the entry records position, deleted count and the current sequence number");
-	__CPROVER_assert(lo->del == (n_del ? g_cp_text : (char *) 0) && lo->ins == (has_buf ? g_dup_text : (char *) 0) && lo->n_ins == (has_buf ? g_LC : 0),
+	H_ASSERT(lo->pos == pos && lo->n_del == n_del && lo->seq == lb->useq, "lbuf_opt: the entry records position, deleted count and the current sequence number");
+	H_ASSERT(lo->del == (n_del ? g_cp_text : (char *) 0) && lo->ins == (has_buf ? g_dup_text : (char *) 0) && lo->n_ins == (has_buf ? g_LC : 0),
 		"lbuf_opt: the entry holds the deleted text, a copy of the inserted text and its line count");
 	for (i = 0; i < 2; i++)
 		if (i < u0)
-			__CPROVER_assert(lb->hist[i].pos == old[i].pos && lb->hist[i].n_ins == old[i].n_ins && lb->hist[i].n_del == old[i].n_del &&
+			H_ASSERT(lb->hist[i].pos == old[i].pos && lb->hist[i].n_ins == old[i].n_ins && lb->hist[i].n_del == old[i].n_del &&
 				lb->hist[i].seq == old[i].seq && lb->hist[i].pos_off == old[i].pos_off && lb->hist[i].ins == old[i].ins && lb->hist[i].del == old[i].del &&
 				lb->hist[i].mark == old[i].mark && lb->hist[i].mark_off == old[i].mark_off,
 				"lbuf_opt: the history below the undo cursor is kept, field for field, also when the table grows");
